@@ -68,6 +68,14 @@ class FoldRaise(Exception):
         self.exc = exc
 
 
+class _Break(Exception):
+    pass
+
+
+class _Continue(Exception):
+    pass
+
+
 class _Return(Exception):
     def __init__(self, value: Any):
         self.value = value
@@ -96,6 +104,7 @@ class Folder:
 
     def start_trace(self) -> None:
         self.trace = []
+        self.steps = 0  # the step budget is per probing session
 
     def one_sided(self, ignore: Tuple[str, ...] = ()) -> List[Tuple[str, ast.AST]]:
         """tests decided the same way on every probe of the trace whose other outcome is not a refusal: the probes do not show what the
@@ -210,7 +219,7 @@ class Folder:
     # ------------------------------------------------------------------ expressions
     def expr(self, e: ast.AST, env: Dict[str, Any], m: Module) -> Any:
         self.steps += 1
-        if self.steps > 400000:
+        if self.steps > 3000000:
             raise AnalysisError("constant folder: step budget exceeded")
         if isinstance(e, ast.Constant):
             return e.value
@@ -753,12 +762,26 @@ class Folder:
                 self._note(st.iter, None)
                 self._poison(st, env, m)
                 return
+            broke = False
             for x in list(it):
                 if not self._bind_target(st.target, x, env):
+                    self._note(st.target, None)
                     self._poison(st, env, m)
                     return
-                self.block(st.body, env, m)
+                try:
+                    self.block(st.body, env, m)
+                except _Break:
+                    broke = True
+                    break
+                except _Continue:
+                    continue
+            if not broke and st.orelse:
+                self.block(st.orelse, env, m)
             return
+        if isinstance(st, ast.Break):
+            raise _Break()
+        if isinstance(st, ast.Continue):
+            raise _Continue()
         if isinstance(st, ast.Return):
             raise _Return(self.expr(st.value, env, m) if st.value is not None else None)
         if isinstance(st, ast.Raise):
@@ -819,6 +842,7 @@ class Folder:
                 if st.finalbody:
                     self.block(st.finalbody, env, m)
             return
+        self._note(st, None)  # a statement kind the folder does not interpret: what follows is not a decision
         self._poison(st, env, m)
 
     def _match_handler(self, st: ast.Try, fr: "FoldRaise", env: Dict[str, Any], m: Module):
